@@ -383,7 +383,7 @@ def c07(ctx):
                     "(polling and websocket, revisions 3 and 4, 9 interval/timeout pairs) driven on the same grid under the virtual clock", evs=evs)
 eng_prop("C08", ["upg"], nq=90)
 eng_prop("C11", ["poll"], nq=90)
-eng_prop("C12", ["life", "poll"])
+eng_prop("C12", ["life", "poll"], extra=("grace",))
 eng_prop("C18", ["flow"], extra=("reent",), nq=90)
 
 
@@ -589,6 +589,12 @@ def c09(ctx):
 def c10(ctx):
     M.tlc_model(ctx, "Hostile", HOST_CFG % "size", "size_table")
     evs = eng_run(ctx, [], 40, 600, ("limit",))
+    # WebTransport frames: the reader must refuse an over-limit frame without draining it (WTMon tags that clause C10)
+    trace, summ = M.go_family(ctx, "wtr", nrandom=60 if ctx.quick else 600, timeout=2400)
+    v, lines = M.tlc_trace(ctx, "WTMon", MON_WT_CFG, "wtr", trace, timeout=2400)
+    ctx.traces += summ.get("stats", {}).get("scenarios", 0)
+    ctx.events += lines
+    M.classify(ctx, [x for x in v if x.get("prop") == "C10"])
     ctx.extra["size_probes"] = sum(1 for e in evs if e["e"] in ("c10.post", "c10.frame"))
     ctx.assumptions = ENG_ASSUME + ["the constant K of 'limit plus a constant' is one read buffer: 64 KiB",
                                     "WebTransport frames are bounded at the framing layer (C15)"]
